@@ -1,8 +1,8 @@
-CONSTANTS MaxEntries = 4
- Allowances = {3}
- Budget = 12
+CONSTANTS MaxEntries = 3
+ Allowances = {1, 2, 3}
+ Budget = 6
  Canonical = TRUE
- ClassSet = {"c0", "c1", "c2"}
+ ClassSet = {"c1", "c2"}
  Emit = TRUE
 SPECIFICATION Spec
 INVARIANTS CountsOK ExecsOK VerdictOK LoopShape StopMeansPass EmitCase
